@@ -1609,6 +1609,7 @@ var (
 
 	// errConnClosed replaces closed errors to prevent client IP logging
 	errConnClosed = errors.New("closed")
+	errNetOp      = errors.New("network error")
 )
 
 func generalizeErr(err error) error {
@@ -1635,6 +1636,14 @@ func generalizeErr(err error) error {
 		}
 	}
 
-	// if it is not a well known error, return it
+	// If it is not a well known error, return it - but never with the endpoint addresses that a
+	// *net.OpError carries in its text ("read tcp <station>:443-><client>:port: ..."): keep only
+	// the underlying cause.
+	if opErr, ok := err.(*net.OpError); ok {
+		if opErr.Err != nil {
+			return opErr.Err
+		}
+		return errNetOp
+	}
 	return err
 }
